@@ -27,6 +27,7 @@ func c04(c *Ctx) {
 	c03R7(c, "R5")
 	sStale(c, "R6/S-STALE", "(*Raft).appendEntries")
 	sState(c, "R7/S-STATE")
+	sMatch(c, "R8/S-MATCH")
 }
 
 // prevCheckTracks: tracks of the previous-entry check in appendEntries.
